@@ -90,7 +90,11 @@ func corpus() []Spec {
 	add("split-heights-tm", Op{K: "create", Name: "tendermint-0", T: tTM, Rev: "303", H: "303"},
 		wc("tendermint-0", 0, 5, 1), wc("tendermint-0", 0, 47, 2), wc("tendermint-0", 0, 303, 3), wc("tendermint-0", 0, 0x2f00, 4),
 		wc("tendermint-0", 0, 0x2f2f2f2f2f2f2f2f, 5), wc("tendermint-0", 47, 9, 6), wc("tendermint-0", 0x2f00000000000000, ^uint64(0), 7),
-		wc("tendermint-0", 1, 48, 8), wc("tendermint-0", 0x2f636c69, 0x656e745374617465, 9))
+		wc("tendermint-0", 1, 48, 8), wc("tendermint-0", 0x2f636c69, 0x656e745374617465, 9),
+		// consensus state keys whose 16 height bytes END in a metadata suffix: ".../processedTime" (revision low bytes "/proce",
+		// height "ssedTime"), and the same below another revision high part; a height that reads "/clientState"
+		wc("tendermint-0", 0x2f70726f6365, 0x7373656454696d65, 10), wc("tendermint-0", 0xffff2f70726f6365, 0x7373656454696d65, 11),
+		wc("tendermint-0", 0x2f70726f6365, 0x7373656454696d66, 12))
 	// D7 on the EVM clients: a BSC client updated through height 815 = 0x032F, an ETH client at 0x2F00
 	add("split-heights-bsc", Op{K: "create", Name: "bsc-chain", T: tBSC, Rev: "0", H: "800", Epoch: 200, Vals: 1}, Op{K: "update", Name: "bsc-chain", N: 16},
 		wc("bsc-chain", 47, 12032, 3))
@@ -122,6 +126,10 @@ func corpus() []Spec {
 		Op{K: "relayer", Addr: relayerAddr(1), List: []string{"abc", "abc-1"}, List2: []string{"0x01", "cosmos1xyz"}},
 		Op{K: "relayer", Addr: relayerAddr(2), List: []string{"abc+"}, List2: []string{""}},
 		Op{K: "rv_params", B: true, List: []string{"atele", "5", "stake", "0"}}, Op{K: "agg_params", N: 1, B: false})
+	// ResetStates (upgrade handler): only the native chain name survives; clients created afterwards
+	add("reset", Op{K: "create", Name: "abc", T: tTM, Rev: "1", H: "47"}, wc("abc", 1, 303, 2), Op{K: "chain_name", Name: "tele.port"},
+		Op{K: "relayer", Addr: relayerAddr(3), List: []string{"abc"}, List2: []string{"0x01"}}, Op{K: "reset"},
+		Op{K: "create", Name: "abc", T: tETH, Rev: "0", H: "47"}, Op{K: "update", Name: "abc", N: 2})
 	// registry content: module-owned and external pairs, several denominations, a disabled pair, a replaced contract
 	add("registry", Op{K: "agg_regcoin", Name: "ucoin"}, Op{K: "agg_deploy", N: 1}, Op{K: "agg_regerc20", N: 0}, Op{K: "agg_addcoin", Name: "ibc/" + strings.Repeat("AB", 32), N: 0},
 		Op{K: "agg_addcoin", Name: "second-denom", N: 1}, Op{K: "agg_toggle", N: 0}, Op{K: "agg_deploy", N: 1}, Op{K: "agg_update", N: 0, Rev: "1", B: true},
@@ -138,11 +146,13 @@ func corpus() []Spec {
 	gadd("gen-shared-denom-rev", PairIn{a3, []string{"shared"}, true, 2}, PairIn{a2, []string{"first", "shared"}, true, 1})
 	gadd("gen-shared-denom-inner", PairIn{a2, []string{"first", "shared"}, true, 1}, PairIn{a3, []string{"third", "shared"}, true, 2})
 	gadd("gen-no-denoms", PairIn{a2, []string{}, true, 1})
+	gadd("gen-no-denoms-disabled", PairIn{a3, []string{"coin"}, true, 1}, PairIn{a2, []string{}, false, 2})
 	gadd("gen-dup-inside", PairIn{a2, []string{"coin", "coin"}, true, 1})
 	gadd("gen-hex-denom", PairIn{a2, []string{"abcdef0123456789abcdef0123456789abcdef01"}, true, 1})
 	gadd("gen-bad-address", PairIn{"0x1234", []string{"coin"}, true, 1})
 	gadd("gen-bad-denom", PairIn{a2, []string{"coin", "1x"}, true, 1})
 	gadd("gen-same-address", PairIn{a2, []string{"coin"}, true, 1}, PairIn{a2, []string{"other"}, true, 1})
+	out = append(out, xibcCorpus()...)
 	for i := range out {
 		out[i].ID = i
 	}
@@ -305,6 +315,9 @@ func (g *gen) step() {
 	default:
 		if r.Chance(1, 4) {
 			g.add(Op{K: "chain_name", Name: names[r.Intn(len(names))]})
+		} else if r.Chance(1, 6) {
+			g.add(Op{K: "reset"})
+			g.clients, g.order = map[string]string{}, nil
 		} else {
 			g.add(Op{K: "commit"})
 		}
@@ -350,6 +363,8 @@ func generate(seed uint64, n int) []Spec {
 		id := len(out)
 		if i%5 == 4 {
 			out = append(out, genGenesis(r, id))
+		} else if i%5 == 2 {
+			out = append(out, genXibcGenesis(r, id))
 		} else {
 			out = append(out, genHistory(r, id))
 		}
